@@ -6,7 +6,7 @@ from tokutil import *  # noqa
 from protocol import from_real
 
 ID = "C03"
-LEAN_MODULE = ["SCoda.Props.C01", "SCoda.Props.C01b", "SCoda.Props.C03b", "SCoda.Props.C10"]
+LEAN_MODULE = ["SCoda.Props.C01", "SCoda.Props.C01b", "SCoda.Props.C03b", "SCoda.Props.C10", "SCoda.Props.C03c"]
 LEVEL = "proof"
 CLAUSES = [
     ("two consecutive calls threading the state emit (notes and bar ends) exactly what one call on the joined events emits; "
@@ -16,6 +16,15 @@ CLAUSES = [
      ["SCoda.C01.sim_partial", "SCoda.C01.applyRest_sync"]),
     ("any number of consecutive calls threading the state: the concatenated stream makes the detokeniser emit exactly the specification log of the whole piece "
      "(chunk i laid at the clock its call starts from)", ["SCoda.C01.chunked_n"]),
+    ("WHOLE BARS at cumulative bar lengths (audit A1): chunks are lists of bars (signature + bar-relative events; input-level, decidable `BarsOk`), laid at the "
+     "cumulative sum of bar lengths — not at the tokeniser's own carried clock. A call on whole bars from a bar line ends exactly one chunk length later iff the chunk "
+     "does not stall (input-level `Stalls`: the last onset does not pass the line on which the last bar starts — the D19 class), and falls strictly short otherwise. "
+     "For every grouping in which no chunk but the last stalls, whenever the threaded calls are accepted the SINGLE call on the joined piece succeeds with the same tokens and "
+     "final state, and the detokeniser's log is the independent grid log (notes at bar start + tick, a bar end at every cumulative bar length); against a single call on "
+     "any presentation of the piece with the same notes per bar (what the real merge produces) the two logs are permutations of each other. Without the no-stall "
+     "hypothesis the statement is refuted (3/8, two one-bar chunks with a whole-bar note each; replayed: known finding D19)",
+     ["SCoda.C03c.call_end_wholebars", "SCoda.C03c.wholebars_log", "SCoda.C03c.chunked_wholebars", "SCoda.C03c.chunked_vs_single",
+      "SCoda.C03c.chunked_wholebars_init", "SCoda.C03c.chunked_wholebars_statement_false", "SCoda.C03c.d19_facts"]),
     ("glue: a bar produced by sequences_split_bars lasts exactly its signature's length (so chunks of bars are whole bars)", ["SCoda.C10.bar_duration"]),
     ("glue: where a call ends — on the onset of its last event if that is a bar line, else at the end of the bar containing it; hence a call on whole bars "
      "ends at the end of its last bar unless nothing in that bar moves the clock off the bar line (partial: known finding D19, refuted in general by a kernel-checked example)",
@@ -24,7 +33,8 @@ CLAUSES = [
 RULE = ("valid pieces (1-3 tracks, 2-6 bars, signature changes, empty bars) split into bars by sequences_split_bars, regrouped "
         "by random partitions (thorough: all 2^(bars-1) partitions up to 6 bars) x sampled configurations; "
         "non-trivial = at least 2 chunks and at least 2 notes")
-ASSUMPTIONS = ["models: SCoda.tokeniseCore with explicit carried state, SCoda.splitBars, SCoda.barsToSeq; every call of every "
+ASSUMPTIONS = ["NOT proved (kept as `def C03c.extract_wholebars_statement`, kernel-checked on a 4-bar 2-track example and fuzzed on the implementation): the bars produced by splitBars and merged by extract form a BarsOk chunk with the same notes per bar as the per-bar runs; the literal reading 'extract of the concatenation = chunks laid end to end' is false (repeated signatures and cap messages are dropped, simultaneous notes of different tracks may swap)",
+               "models: SCoda.tokeniseCore with explicit carried state, SCoda.splitBars, SCoda.barsToSeq; every call of every "
                "partition is compared separately (its state in, tokens and state out)"]
 
 
